@@ -12,7 +12,7 @@
                              down one at a time per pair (see docs/C06.md; the excluded
                              schedules are finding D06d and a modelling artefact of delays). *)
 From Coq Require Import ZArith List Bool.
-From BV Require Import Model.Link Proofs.Link.
+From BV Require Import Model.Link Proofs.Link Proofs.LinkSym.
 Import ListNotations.
 Open Scope Z_scope.
 
@@ -44,6 +44,45 @@ Proof.
               (ci_distinct c (proj1 (g_c _ (reachable_ginv cfg ls H1 H2) i c H3)))).
 Qed.
 Print Assumptions C06_handles_distinct.
+
+(* ---------------------------------------------------------------- tables symmetric *)
+(* In every state reachable under the symmetry guard, for two controllers i, j with no
+   ConnectInd / TerminateInd in flight between them: either neither holds an LE connection
+   towards the other, or each holds exactly one, and they mirror each other: i's entry
+   (peer b, own a, role r) faces j's entry (peer a, own b, role not r).
+   Partial: LE tables only (the BR/EDR tables have routing lemmas but no symmetry
+   invariant), and only for schedules satisfying guard_sym. *)
+Theorem C06_tables_symmetric_partial : forall cfg ls i j ci cj, cfg_ok cfg = true ->
+  run_ok guard_sym (init cfg) ls = true ->
+  let s := run_state (init cfg) ls in
+  i <> j -> nth_error (st_cs s) i = Some ci -> nth_error (st_cs s) j = Some cj ->
+  pair_quiet s i j = true ->
+  (towards cj ci = [] /\ towards ci cj = []) \/
+  (exists e e', towards cj ci = [e] /\ towards ci cj = [e'] /\ mirror e e').
+Proof. exact tables_symmetric. Qed.
+Print Assumptions C06_tables_symmetric_partial.
+
+(* ... and every LE connection is towards an address of some other controller, so the
+   statement above covers every entry of every table *)
+Theorem C06_every_connection_has_a_peer_controller : forall cfg ls i ci e, cfg_ok cfg = true ->
+  run_ok guard_sym (init cfg) ls = true ->
+  let s := run_state (init cfg) ls in
+  nth_error (st_cs s) i = Some ci -> In e (c_le ci) ->
+  exists j cj, j <> i /\ nth_error (st_cs s) j = Some cj /\ In e (towards cj ci).
+Proof. exact peer_is_other_controller. Qed.
+Print Assumptions C06_every_connection_has_a_peer_controller.
+
+(* the guard is necessary: finding D06d in the model *)
+Theorem C06_tables_symmetric_refuted_without_guard : exists cfg ls,
+  cfg_ok cfg = true /\ run_ok guard_static (init cfg) ls = true /\ run_ok guard_sym (init cfg) ls = false /\
+  let s := run_state (init cfg) ls in
+  pair_quiet s 1 2 = true /\
+  match nth_error (st_cs s) 1, nth_error (st_cs s) 2 with
+  | Some c1, Some c2 => andb (negb (nil_b (towards c2 c1))) (nil_b (towards c1 c2))
+  | _, _ => false
+  end = true.
+Proof. exact tables_symmetric_refuted_without_guard. Qed.
+Print Assumptions C06_tables_symmetric_refuted_without_guard.
 
 (* ---------------------------------------------------------------- connect reaches the target only *)
 Theorem C06_connect_reaches_target_only : forall n j c a b c' e o, ainv c ->
@@ -187,7 +226,7 @@ Example C06_nonvacuous :
              LConnect 0 20 true; LTick 1; LDeliver 0; LDeliver 0; LDeliver 0; LDeliver 0;
              LAcl 0 1 [1; 2; 3]; LAcl 1 1 [4; 5]; LDeliver 0; LDeliver 0;
              LDisconnect 0 1 19; LDeliver 0] in
-  cfg_ok cfg = true /\ run_ok guard_static (init cfg) ls = true /\
+  cfg_ok cfg = true /\ run_ok guard_static (init cfg) ls = true /\ run_ok guard_sym (init cfg) ls = true /\
   let '(s, tr) := run (init cfg) ls in
   map fst tr =
     [[]; []; []; []; []; []; [(0%nat, EStatus 0)]; [];
